@@ -398,6 +398,22 @@ func init() {
 	}
 
 	externals["encoding/binary.Read"] = binaryRead
+
+	// maps.clone is linked to the runtime: shallow copy of the map
+	externals["maps.clone"] = func(fr *frame, args []value) value {
+		itf := args[0].(iface)
+		m, _ := itf.v.(*omap)
+		if m == nil {
+			return itf
+		}
+		n := newOmap(m.keyType)
+		for i, k := range m.keys {
+			if !m.dead[i] {
+				n.insert(fr.i.ex, k, m.vals[i])
+			}
+		}
+		return iface{t: itf.t, v: n}
+	}
 }
 
 func toByteValues(fr *frame, v value) []value {
